@@ -247,7 +247,11 @@ impl FileLogWriterBuilder {
                 append: self.cfg_append,
                 line_ending: self.cfg_line_ending,
                 write_mode: self.cfg_write_mode,
-                file_spec: self.file_spec.clone(),
+                file_spec: {
+                    let mut file_spec = self.file_spec.clone();
+                    file_spec.fix_timestamp();
+                    file_spec
+                },
                 o_create_symlink: self.cfg_o_create_symlink.clone(),
                 use_utc: self.use_utc,
             },
